@@ -6,7 +6,7 @@ import sys
 
 ROOT = os.path.dirname(os.path.dirname(os.path.abspath(__file__)))
 
-HOOK_COMMITS = ["b1474d3", "17f8504", "209f7d4", "d1c653d", "95035df", "920cc08", "6e834a5", "da9a5fd", "b20d73f", "6f5243c"]
+HOOK_COMMITS = ["b1474d3", "17f8504", "209f7d4", "d1c653d", "95035df", "920cc08", "6e834a5", "da9a5fd", "b20d73f", "6f5243c", "e421a4b"]
 
 CHECKS = {
     "C07": {
@@ -129,11 +129,11 @@ CHECKS["C08"] = {
 
 CHECKS["C15"] = {
     "category": "model_checking",
-    "technique": "TLA+ Limiter.tla (lazy token bucket with delayed consumption) checked by TLC; TLC evaluation of WindowBound / Fifo / CancelNeutral on recorded histories of the real Limiter, and of TraceRpcRate.tla (window and in-flight bounds) on handler histories of the real rpc::Service, both on a manual clock",
+    "technique": "TLA+ Limiter.tla (lazy token bucket with delayed consumption) checked by TLC; TLC evaluation of WindowBound / Fifo / CancelNeutral on recorded histories of the real Limiter, and of TraceRpcRate.tla (window and in-flight bounds) on handler histories of the real rpc::Service, both on a manual clock; TraceNodeRate.tla on the answer times of a real running node hammered per RPC kind",
     "text": "Model: every interleaving of calls, grants, cancels, drops and ticks (WindowBound, Fifo, bucket sanity). Code: seeded scripts run twice (with and "
             "without the cancelled calls) on the real limiter; the window bound, arrival-order service and cancel-neutrality are evaluated by TLC on the grant histories. "
             "Per connection: the real rpc::Service (ping, consensus servers) against real clients without client-side rate, a raw mux peer that answers every OPEN in advance, "
-            "one that stays silent and then says everything at once, and one that claims 1000 streams and uses stream ids beyond the limits; handler starts per window and concurrent handlers are bounded by TLC on the recorded history.",
+            "one that stays silent and then says everything at once, and one that claims 1000 streams and uses stream ids beyond the limits; handler starts per window and concurrent handlers are bounded by TLC on the recorded history. Node level: a running node with a different rate per RPC kind answers, per kind, no more calls than the rate configured for that kind allows.",
     "note": "Manual clock, single-threaded runtime with quiescence between clock advances. Two RPC kinds stand for all; the bound on handler starts carries an additive INFLIGHT term except for raw peers whose request accompanies the OPEN (there the limiter bound itself is checked).",
     "design_ref": "§7 C15",
 }
